@@ -152,41 +152,67 @@ def r1(F, R):
     R.floor(8)
 
 
+def merged_flag(F):
+    """fail_fast as handed to ingestion and execution, on the deep path table of `Runner::run` (roles.run_merge_table; the runner's own
+    private helpers inlined, so a `Cli::or_configured(..) -> ResolvedOptions` in between does not matter).  Returns
+    (run, same, inputs, disj, why): both routines get the same term on every row; the value depends on the CLI flag and on the builder
+    flag; for every assignment of the two consistent with what a row learned the value is `cli || builder`."""
+    run, paths, H = roles.run_merge_table(F)
+    ie, ii = bool_param_upvar(F, roles.execute(F)), bool_param_upvar(F, roles.insert_features(F))
+    cli_t, b_t = H["cli"]("fail_fast"), H["builder"]("fail_fast")
+
+    def val(t, env):
+        if t == ("const", True) or t == ("const", False) or (isinstance(t, tuple) and t[0] == "const" and t[1] in (0, 1)):
+            return bool(t[1])
+        if t == cli_t:
+            return env["c"]
+        if t == b_t:
+            return env["b"]
+        if isinstance(t, tuple) and t and t[0] == "bin" and t[1] in ("BitOr", "BitAnd"):
+            x, y = val(t[2], env), val(t[3], env)
+            return None if x is None or y is None else ((x or y) if t[1] == "BitOr" else (x and y))
+        if isinstance(t, tuple) and t and t[0] == "un" and t[1] == "Not":
+            x = val(t[2], env)
+            return None if x is None else (not x)
+        return None
+    same, disj, why, covered, mention = True, True, "", set(), set()
+    for p in paths:
+        e1, e2 = H["execute"](p), H["ingest"](p)
+        if e1 is None or e2 is None:
+            raise Unverifiable("Runner::run: a path does not start ingestion and execution exactly once")
+        v1, v2 = e1[2][ie], e2[2][ii]
+        same = same and v1 == v2
+        learned = {}
+        for a, o in p.conds:
+            if a == cli_t and isinstance(o, bool):
+                learned["c"] = o
+            if a == b_t and isinstance(o, bool):
+                learned["b"] = o
+        for t in [v1] + [a for a, _ in p.conds]:
+            if H["D"].mentions(t, lambda y: y == cli_t):
+                mention.add("cli")
+            if H["D"].mentions(t, lambda y: y == b_t):
+                mention.add("builder")
+        for c in (True, False):
+            for b in (True, False):
+                if learned.get("c", c) != c or learned.get("b", b) != b:
+                    continue
+                got = val(v1, {"c": c, "b": b})
+                covered.add((c, b))
+                if got is None:
+                    disj, why = False, f"the flag handed on is {H['D'].fmt(run, v1)[:60]}"
+                elif got != (c or b):
+                    disj, why = False, f"with --fail-fast {'given' if c else 'absent'} and the builder flag {'set' if b else 'unset'} the runner gets {got}"
+    if len(covered) != 4:
+        disj, why = False, why or f"only the cases {sorted(covered)} are handled"
+    return run, same, mention, disj, why
+
+
 def r2(F, R):
-    runs = [b for adt, b in roles.trait_impl_methods(F, r"runner::Runner$", "run") if adt == "runner::basic::Basic"]
-    if len(runs) != 1:
-        raise Unverifiable("Runner::run impl")
-    run = runs[0]
-    ex, ing = roles.execute(F), roles.insert_features(F)
-    ex_fn, ing_fn = F.parent_body(ex), F.parent_body(ing)
-    locs = []
-    for fn, co in ((ex_fn, ex), (ing_fn, ing)):
-        calls = [(s, t) for s, t in run.calls() if F.callee_body(t) is fn]
-        if len(calls) != 1:
-            raise Unverifiable(f"call of {fn.short}")
-        idx = bool_param_upvar(F, co)
-        a = calls[0][1]["args"][idx]
-        cp = A.canon_place(run, {"l": op_local(a), "p": []})
-        locs.append(cp["l"])
-    R.check(locs[0] == locs[1], "same-flag-to-both", run, "ingestion and execution get the same fail_fast", "ingestion and execution receive different fail_fast values")
-    l = locs[0]
-    sl = A.slice_back(run, start_locals=[l])
-    fields = set(sl.fields)
-    for s0, k0, p0 in run.defs.get(l, []):
-        for g in A.guards_of(run, s0):
-            if g.discr_local is not None:
-                fields |= A.slice_back(run, start_locals=[g.discr_local]).fields
-    has = {("runner::basic::Cli", "fail_fast") in fields, ("runner::basic::Basic", "fail_fast") in fields}
-    R.check(has == {True}, "cli-or-builder/inputs", run, "reads cli.fail_fast and the builder flag", f"fail_fast reads {sorted(o for o, n in fields if n == 'fail_fast')}")
-    # `a || b`: definitions are const true (under a's true edge) and a copy of b
-    ds = run.defs.get(l, [])
-    consts = [s for s, k, p in ds if k == "assign" and p["rv"]["k"] == "use" and const_int(p["rv"]["op"]) is not None]
-    vals = {const_int(p["rv"]["op"]) for s, k, p in ds if k == "assign" and p["rv"]["k"] == "use" and const_int(p["rv"]["op"]) is not None}
-    ok_or = len(ds) == 2 and vals == {1}
-    if ok_or:
-        g = [g for g in A.guards_of(run, consts[0])]
-        ok_or = any(gg.polarity() is True for gg in g)
-    R.check(ok_or, "cli-or-builder/disjunction", run, "cli.fail_fast || builder", "fail_fast is not the disjunction of the CLI flag and the builder flag")
+    run, same, mention, disj, why = merged_flag(F)
+    R.check(same, "same-flag-to-both", run, "ingestion and execution get the same fail_fast", "ingestion and execution receive different fail_fast values")
+    R.check(mention == {"cli", "builder"}, "cli-or-builder/inputs", run, "reads cli.fail_fast and the builder flag", f"fail_fast depends on {sorted(mention)} only")
+    R.check(disj, "cli-or-builder/disjunction", run, "cli.fail_fast || builder", f"fail_fast is not the disjunction of the CLI flag and the builder flag: {why}")
     R.floor(3)
 
 
@@ -339,17 +365,13 @@ def r5(F, R):
         ds = A.deep_slice(F, ing, start_locals=[l])
         fields = {(o, n) for o, n in ds.fields if n == "fail_fast"}
         for k, p in ds.root_params:
-            if k == ing_fn.key:
-                sl = A.slice_back(run, [calls[0][1]["args"][p - 1]])
-                fields |= {(o, n) for o, n in sl.fields if n == "fail_fast"}
-                for s0, k0, p0 in run.defs.get(op_local(calls[0][1]["args"][p - 1]) or -1, []):
-                    pass
-                # `a || b` in Runner::run: also the guard of the const-true definition
-                cl = A.canon_place(run, {"l": op_local(calls[0][1]["args"][p - 1]), "p": []})["l"] if op_local(calls[0][1]["args"][p - 1]) is not None else None
-                for s0, k0, p0 in run.defs.get(cl, []):
-                    for g in A.guards_of(run, s0):
-                        if g.discr_local is not None:
-                            fields |= {(o, n) for o, n in A.slice_back(run, start_locals=[g.discr_local]).fields if n == "fail_fast"}
+            if k == ing_fn.key and p - 1 == bool_param_upvar(F, ing):
+                # the condition is the routine's bool parameter: what Runner::run hands in there is decided by R2's table
+                _, same_, mention_, disj_, _ = merged_flag(F)
+                if disj_:
+                    fields |= {("runner::basic::Cli", "fail_fast"), ("runner::basic::Basic", "fail_fast")}
+                else:
+                    fields |= {("runner::basic::Cli" if m_ == "cli" else "runner::basic::Basic", "fail_fast") for m_ in mention_}
         if fields:
             found = (bb, fields)
     R.check(found is not None, "ingestion-stops-on-first-error", nx.poll_site, "Err ∧ fail_fast ⇒ leave the ingestion loop",
